@@ -1,7 +1,9 @@
 """C30 Events semaphore bounds, waits and times out correctly.
 Specs: specs/msc/Semaphore.tla (abstract two-dimensional semaphore with call / linearization / return,
 model-checked at small scope for the time-free clauses), SemScenarios.tla (pattern S: TLC enumerates the
-driver scripts of acquire/try/release/terminate/sleep steps), SemaphoreTrace.tla (patterns T+L: validates
+driver scripts of acquire/try/release/terminate/sleep steps), SemContention.tla (second script family: the semaphore is
+filled, two or three callers with requests of different sizes block, releases free room that fits the oldest waiter, only
+a later one, several or none), SemaphoreTrace.tla (patterns T+L: validates
 the call/ret/warn/settled lines recorded from the real DataSemaphore in real time, searching for
 linearization points and adding the time bounds: refusal by timeout within [timeout, timeout+slack];
 at every settled point nobody is in flight whose request fits, exceeds the capacity or is overdue;
@@ -69,20 +71,24 @@ def run(c):
     fmc = bg.submit(c.tlc_must_pass, "msc", "MC_Semaphore", cfg=c.pick("MC_Semaphore_quick", "MC_Semaphore_thorough"),
                     workers=c.pick(2, 6), timeout=3000)
     rnd = random.Random(c.seed)
-    plan = c.pick([("MC_SemScen_q3", None), ("MC_SemScen_q4", 600), ("MC_SemScen_q5", 350)],
-                  [("MC_SemScen_q4", None), ("MC_SemScen_q5", None), ("MC_SemScen_t4", 4000)])
+    # (module, cfg, sample size or None = all)
+    plan = c.pick([("MC_SemContention", "MC_SemContention_quick", None), ("MC_SemScen", "MC_SemScen_q3", None),
+                   ("MC_SemScen", "MC_SemScen_q4", 500), ("MC_SemScen", "MC_SemScen_q5", 250)],
+                  [("MC_SemContention", "MC_SemContention_thorough", None), ("MC_SemScen", "MC_SemScen_q4", None),
+                   ("MC_SemScen", "MC_SemScen_q5", None), ("MC_SemScen", "MC_SemScen_t4", 4000)])
     scen = c.path("sem_scen.ndjson")
     enumerated = {}
     nscen = 0
 
-    def enum(cfg):
+    def enum(job):
+        module, cfg, _ = job
         part = c.path(cfg + ".ndjson")
-        c.tlc_must_pass("msc", "MC_SemScen", cfg=cfg, edges_out=part, workers=2, timeout=3000, count=False)
+        c.tlc_must_pass("msc", module, cfg=cfg, edges_out=part, workers=2, timeout=3000, count=False)
         return open(part).readlines()
-    with ThreadPoolExecutor(max_workers=3) as ex:
-        parts = list(ex.map(enum, [cfg for cfg, _ in plan]))
+    with ThreadPoolExecutor(max_workers=4) as ex:
+        parts = list(ex.map(enum, plan))
     with open(scen, "w") as out:
-        for (cfg, sample), lines in zip(plan, parts):
+        for (module, cfg, sample), lines in zip(plan, parts):
             enumerated[cfg] = len(lines)
             if sample and len(lines) > sample:
                 lines = rnd.sample(lines, sample)
@@ -95,7 +101,7 @@ def run(c):
     stats = json.loads(c.vh(["semrun", "-par", 48, "-settle", SETTLE, "-slack", SLACK, scen, trace]).stdout)
     c.log("executed on the real semaphore:", stats)
     for g in ("acquire_granted_at_once", "acquire_granted_after_waiting", "acquire_refused_after_waiting",
-              "acquire_refused_at_once", "warnings", "settled_with_blocked_caller"):
+              "acquire_refused_at_once", "warnings", "settled_with_blocked_caller", "settled_with_two_or_more_blocked_callers"):
         c.guard(g, stats.get(g, 0))
     r = vlib.validate_scenarios(c, "msc", "SemaphoreTrace", trace, chunks=6, max_rej=c.pick(8, 40))
     c.log("trace validation: %d lines, %d scenarios, %d rejected" % (r["lines"], r["scenarios"], len(r["rejections"])))
@@ -108,7 +114,7 @@ def run(c):
         script = rej["scenario"][0]["script"]
         sp = c.path("sem_rerun_%d.ndjson" % i)
         tp = c.path("sem_rerun_trace_%d.ndjson" % i)
-        vlib.ndjson_write(sp, [dict(script=script)])
+        vlib.ndjson_write(sp, [dict(cap=rej["scenario"][0]["cap"], script=script)])
         c.vh(["semrun", "-par", 1, "-settle", 3 * SETTLE, "-slack", SLACK, sp, tp])
         ok, rejline, _ = c.validate_trace("msc", "SemaphoreTrace", tp, heap="2g")
         rej2 = None
@@ -168,10 +174,10 @@ def run(c):
         rejections_first_run=len(r["rejections"]), rejections_not_reproduced=noise,
         settle_ms=SETTLE, slack_ms=SLACK,
         exhaustive=c.pick(False, False),
-        rule="driver scripts of SemScenarios.tla (capacity (2,4); weights, timeouts {30 ms, 5 s}; %s), each executed in real time on a "
+        rule="driver scripts of SemScenarios.tla (capacity (2,4)) and SemContention.tla (capacity (4,10), 2-3 blocked callers of different sizes); timeouts {30 ms, 5 s}; %s), each executed in real time on a "
              "real DataSemaphore (blocking calls in goroutines, %d ms settle time after each step, final Terminate), every trace "
              "validated by TLC against SemaphoreTrace.tla; Semaphore.tla itself model-checked (%s)" % (
-                 ", ".join("%s: %s of %d" % (cfg, "all" if not s or s >= enumerated[cfg] else s, enumerated[cfg]) for cfg, s in plan),
+                 ", ".join("%s: %s of %d" % (cfg, "all" if not s or s >= enumerated[cfg] else s, enumerated[cfg]) for _, cfg, s in plan),
                  SETTLE, c.pick("2 callers", "3 callers")),
         harness_stats=stats, samples=[head],
     ), assumptions=["real time: the host is assumed to run a woken goroutine within the settle time (%d ms) and within the slack (%d ms) "
